@@ -103,6 +103,17 @@ def run_verus(group):
     res['raw_stderr_tail'] = p.stderr[-2000:] if not diags else ''
     spans = fn_spans(out)
     gen_lines = open(out).read().split('\n')
+    # ghost regions (proof steps inserted by the extractor) and proof fns
+    ghost_lines = set()
+    inside = False
+    for n, gl in enumerate(gen_lines, 1):
+        if gl.strip() == '// GHOST-BEGIN':
+            inside = True
+        elif gl.strip() == '// GHOST-END':
+            inside = False
+        elif inside:
+            ghost_lines.add(n)
+    proof_fns = set(m.group(1) for m in re.finditer(r'\bproof\s+fn\s+(\w+)', '\n'.join(gen_lines)))
     errors = []
     compile_errors = []
     for d in diags:
@@ -128,6 +139,11 @@ def run_verus(group):
             compile_errors.append(e)
         else:
             e['class'] = 'refuted'
+            # a refuted *proof step* (ghost assert / lemma-call precondition inside inserted ghost text, or anything inside a
+            # proof fn) is not by itself a refutation of the property: it needs a native failing input to count
+            body_lines = [sp['line_start'] for sp in d.get('spans', [])]
+            in_ghost = line in ghost_lines and ('assertion failed' in msg or 'precondition not satisfied' in msg)
+            e['proof_step'] = bool(in_ghost or (fn in proof_fns))
             errors.append(e)
     res['errors'] = errors
     res['compile_errors'] = compile_errors
@@ -380,7 +396,7 @@ def main(argv):
             trusted.add(s['tag'] or ('UNTAGGED:' + s['text']))
         for e in real_errors:
             oid = obligation_id(g, e, info)
-            rec = {'obligation': oid, 'group': g, 'message': e['message'], 'at': e['text'], 'fn': e['fn'], 'rendered': e['rendered']}
+            rec = {'obligation': oid, 'group': g, 'message': e['message'], 'at': e['text'], 'fn': e['fn'], 'rendered': e['rendered'], 'proof_step': e.get('proof_step', False)}
             k = [x for x in known if x.get('property') == pid and x.get('obligation') == oid]
             if k:
                 known_hits.append((k[0], rec))
@@ -460,6 +476,9 @@ def main(argv):
             binary = binary or build_replay()
             unit = v['obligation'].split('/')[0]
             inp = run_search(binary, pid, unit, tier, seed)
+        if v.get('proof_step') and not inp:
+            undecided.append('proof step no longer verifies and no failing input was found natively: %s at `%s`' % (v['obligation'], v['at'][:100]))
+            continue
         path = os.path.join(REPLAYS, '%s-%s.json' % (pid, re.sub(r'[^A-Za-z0-9_.-]+', '_', v['obligation'])))
         json.dump({'property': pid, 'obligation': v['obligation'], 'verifier_message': v['message'], 'at': v['at'],
                    'verifier_output': v['rendered'], 'input': inp}, open(path, 'w'), indent=1)
@@ -498,7 +517,7 @@ def main(argv):
         },
         'assumptions': P.get('assumptions', []),
         'wall_s': round(wall, 2),
-        'violations': len(violations),
+        'violations': len(replay_paths),
     }
     tmp = os.path.join(EVID, pid + '.json.tmp')
     json.dump(ev, open(tmp, 'w'), indent=1)
@@ -508,5 +527,5 @@ def main(argv):
     for u in undecided:
         print('UNDECIDED: %s' % u)
     print('%s tier=%s obligations=%d discharged=%d violations=%d known=%d undecided=%d bounded=%d wall=%.1fs rc=%d' % (
-        pid, tier, obligations, discharged, len(violations), len(known_hits), len(undecided), len(bounded), wall, rc))
+        pid, tier, obligations, discharged, len(replay_paths), len(known_hits), len(undecided), len(bounded), wall, rc))
     return rc
